@@ -127,6 +127,7 @@ def sse2Ops (cfg : SSE2Cfg) : SchemeOps where
     | _ => throw .typeError
 
 def sse1Ops (cfg : SSE1Cfg) : SchemeOps where
+  hyps lv key db t absent := SSE1.hypsB cfg lv key db t absent
   keyGen t := SSE1.keyGen cfg t
   setup lv key db t := do
     let (e, t') ← SSE1.setup cfg lv key db t
